@@ -129,7 +129,7 @@ def run():
         # behaviour generation (TLC) overlaps the Go build
         fcells = pool.submit(generate, chk, sd, "Passwords_GenCells.cfg" if thorough else "Passwords_GenCellsQ.cfg", {}, "cells")
         ftable = pool.submit(generate, chk, sd, "Passwords_GenTable.cfg" if thorough else "Passwords_GenTableQ.cfg", {}, "table")
-        nwalk, depth, budget = (60, 24, 8) if thorough else (8, 20, 6)
+        nwalk, depth, budget = (45, 24, 8) if thorough else (8, 20, 6)
         fwalk = pool.submit(generate, chk, sd, "Passwords_GenWalk.cfg", {"Depth": str(depth), "Budget": str(budget)}, "walks",
                             "num=%d" % nwalk, depth + 6, vf.SEED)
         # 1. the code-shaped ValidatePassword satisfies the property in every reachable state (idealised hashes)
